@@ -36,6 +36,11 @@ def run(ck):
             continue
         if any(r == rr and p[: len(pp)] == pp for r, p in b.resolve(dl.pe.args[0]) for rr, pp in b.resolve(e[2])):
             miss += T.discr_edges(b, sw, 0)
+    # .. and the Err edge of the generation-checked lookup itself (SourceList::get before process_events)
+    for g in T.calls(b, name=("get", "get_mut"), path="SourceList"):
+        if g.bb in dl.blocks and not b.is_cleanup(g.bb) and dl.pe.bb in b.reachable([g.to], removed_blocks=[dl.header]) and T.tainted_by_call(b, dl.pe.args[0], [g.bb]):
+            o, e, _ = T.result_split(b, g.bb)
+            miss += e
     bad = T.t2_all_exits(b, [x for _, x in some], [dl.pe.bb], exits={dl.header}, removed_edges=miss)
     ck.verdict(bool(some) and bad is None, "1", "T2-all-exits", b, "each-event=>process_events-or-lookup-miss", "every event taken from the batch reaches process_events, or the generation-checked lookup missed, before the next event is taken", "an event can be skipped: a path goes from taking an event to the next iteration without dispatching it and without a lookup miss", site=b.where(dl.header), path=path_descr(b, bad) if bad else None)
 
